@@ -31,7 +31,8 @@ type Case struct {
 	WCap  int       `json:"wcap"` // tee writer / multi WriteTo destination; -1 = never fails
 	WClos bool      `json:"wclos"`
 	Srcs  []SrcSpec `json:"srcs"`
-	// Mode: read (Read loop, buffer Buf) | readall (io.ReadAll) | copy (io.Copy: WriteTo for multi)
+	// Mode: read (Read loop, buffer Buf) | readall (io.ReadAll) | copy (io.Copy straight on the
+	// reader: WriteTo for multi, whatever io.Copy picks for limit/tee)
 	// | copywrap (io.Copy through Read) | copybuf (io.Copy into a bytes.Buffer; monitors only)
 	// | ops (literal op list: r<m>, d<dflt>:<b.b>, w, c, s)
 	Mode   string   `json:"mode"`
@@ -297,7 +298,30 @@ func executeInner(c *Case, o *Obs) {
 		}
 		addDrain(sizesOp(rec.sizes), rec.data, rec.last)
 		full(rec.data, rec.last)
-	case "copy": // multi: WriteTo fast path
+	case "copy": // io.Copy straight on the reader under test, so that io.Copy sees its real method set
+		if c.Kind != "multi" {
+			// limit / tee have no WriteTo today: io.Copy then is a Read loop with 32 KiB buffers
+			// (model op d32768:).  If a WriteTo/ReadFrom fast path ever appears, io.Copy takes it
+			// here, and the monitors judge its result like any other consumer's.
+			sink := &wr{cap: -1}
+			var n int64
+			var err error
+			func() {
+				defer func() {
+					if x := recover(); x != nil {
+						err = fmt.Errorf("%w: %v", errPanic, x)
+					}
+				}()
+				n, err = io.Copy(writerOnly{sink}, r)
+			}()
+			o.CopyN = n
+			if err == nil {
+				err = io.EOF // io.Copy reports a clean end of stream as nil
+			}
+			addDrain("d32768:", sink.got, err)
+			full(append([]byte(nil), sink.got...), err)
+			break
+		}
 		var n int64
 		var err error
 		func() {
@@ -436,6 +460,9 @@ func monitor(c *Case, o *Obs) []verdict {
 		return v
 	}
 	closed := c.Closes >= 1
+	if c.Mode == "copy" && c.Kind != "multi" && o.CopyN != int64(len(o.Bytes)) {
+		add(c.Kind+"-copy-count", "io.Copy reported %d bytes, wrote %d", o.CopyN, len(o.Bytes))
+	}
 	switch c.Kind {
 	case "multi":
 		want, term := expectedMulti(c)
